@@ -188,6 +188,10 @@ func gApply(c *Check) {
 		for _, cs := range p.CallsTo(fn) {
 			a := p.Info(cs.Caller).Sym(callArgs(cs.Instr)[idx])
 			ok := a.K == KCall && a.Fn == applyUnstable
+			if !ok && a.K == KParam && (cs.Caller == nextCE || cs.Caller == hasNextCE || cs.Caller == acceptApplying) && a.V == ssa.Value(cs.Caller.Params[len(cs.Caller.Params)-1]) {
+				// passing on its own allowUnstable, which is checked at that function's callers
+				ok = true
+			}
 			c.Result(ok, "C08.A", "allowUnstable argument of "+fn.Name(), fnName(cs.Caller), p.site(cs.Instr), "allowUnstable <- rn.applyUnstableEntries() (never a constant)", a.Key())
 		}
 	}
